@@ -36,7 +36,7 @@ def fFloor (x : Float) : Int := (Float.floor x).toInt64.toInt
 def fTrunc (x : Float) : Int := x.toInt64.toInt
 
 def sf (x : Float) : String := if x.isNaN then "nan" else toString x.toBits
-def se : Err → String | .zerodiv => "err:zerodiv" | .index => "err:index" | .type => "err:type" | .unbound => "err:unbound"
+def se : Err → String | .zerodiv => "err:zerodiv" | .index => "err:index" | .type => "err:type" | .unbound => "err:unbound" | .exit => "err:exit"
 def r1 : M Float → String | .ok v => sf v | .error e => se e
 def r2 : M (Float × Float) → String | .ok v => sf v.1 ++ " " ++ sf v.2 | .error e => se e
 def r3 : M (Float × Float × Float) → String | .ok v => sf v.1 ++ " " ++ sf v.2.1 ++ " " ++ sf v.2.2 | .error e => se e
